@@ -19,6 +19,7 @@ STUBS = [
     "pysym: underlying binary stream = SymSink/SymSource (write appends; readinto follows the io.BufferedIOBase contract: mode full = fills the view unless the data ends, mode short = any 1<=k<=len(view) while data remains, 0 only at end)",
     "pysym: struct.Struct shim for '<' formats of ? b B h H i I q Q f d (range check -> struct.error, little-endian bytes; float payloads opaque IEEE bit patterns)",
     "pysym: module-global shims int/len/bytearray/memoryview/isinstance/range/str/struct/bool/float/complex inside the yardl modules only",
+    "pysym: np.frombuffer on a symbolic buffer yields a window onto that buffer object (no copy, as numpy; reshape/shape/dtype only); natively the real numpy runs",
     "pysym: SymInt hashes to one bucket (dict/set decide key equality with the solver); under enum.py it is unhashable, selecting Enum's linear member search",
 ]
 ASSUME = [
@@ -199,9 +200,12 @@ def c16_py_truncation(prop="C16", tier="quick", seed=0, **kw):
                         continue
                     ts = [["prim", t[1] + "16"] if t[0] == "prim" and t[1] in ("uvarint", "svarint") else (["uint16"] if t == ["uint64"] else t) for t in ts]
                 jobs.append(_job("h_trunc", "trunc:%s:N%d:%s" % ("+".join(tname(t) if t[0] != "prim" else "prim." + t[1] for t in ts), N, m), b, ts=ts, N=N, mode=m, maxlen=maxlen if m == "full" else 2))
+            for which in ("read_view", "read_bytearray"):
+                jobs.append(_job("h_trunc_bulk", "trunc.bulk:%s:N%d:%s" % (which, N, m), b, N=N, mode=m, which=which))
     expected = ["trunc.outcome-is-an-exception", "trunc.no-error-before-the-cut", "trunc.normal-return-only-if-complete",
-                "trunc.delivered==written", "int80-exact"]
+                "trunc.delivered==written", "trunc.bulk-read-returns-only-bytes-present", "int80-exact"]
     bounds = {"buffer_size_N": Ns, "refill_modes": modes, "values_per_stream": "1-3", "container_len_max": maxlen, "cut": "symbolic 0 <= c < total",
+              "bulk_reads": "read_view/read_bytearray(count), count = 1..2N+2 (decided by forking), symbolic content, symbolic cut < count, reader offset symbolic",
               "unwinding": "readinto calls <= 40, symbolic loops <= 64 (reaching a cap = inconclusive)", "job_budget_s": b}
     part = _run("c16_py_truncation", prop, jobs, bounds, expected)
     # 'all-values-delivered' must be unreachable: it is a marker behind failed checks only
@@ -241,6 +245,19 @@ def _ref_lemmas(part):
 BATCH_ITEMS = [["uint8"], ["int16"], ["optional", ["uint8"]], ["vector", ["uint8"]], ["union", [None, ["bool"], ["int8"]]], ["map", ["uint8"], ["bool"]]]
 
 
+# item independence: item types whose readers hand out bulk memory (arrays of trivially serializable elements go
+# through read_bytearray + np.frombuffer, strings through read_view) alone and inside containers; 3 items of 5-9
+# bytes do not fit the N=16 buffer, so later items refill it while the earlier ones are kept
+INDEP_ITEMS = [["fixedarray", ["uint8"], [5]], ["fixedarray", ["f32"], [2]], ["fixedarray", ["int8"], [2, 3]], ["fixedarray", ["uint8"], [18]],
+               ["ndarray", ["uint8"], 1, [0, 6]], ["dynarray", ["int8"], [1, 2], [2]],
+               ["string", ["", "abcdefgh"]], ["vector", ["uint8"]],
+               ["record", [["uint8"], ["fixedarray", ["uint8"], [6]]]], ["optional", ["fixedarray", ["uint8"], [7]]],
+               ["union", [["fixedarray", ["int8"], [6]], ["string", ["abcdefgh"]]]]]
+INDEP_ITEMS_THOROUGH = [["fixedarray", ["f64"], [2]], ["fixedarray", ["c32"], [1]], ["ndarray", ["f32"], 2, [1, 2]], ["vector", ["fixedarray", ["uint8"], [4]]],
+                        ["map", ["uint8"], ["fixedarray", ["uint8"], [3]]], ["string", ["", "a", "abcdefg", "hé€xyz"]],
+                        ["union", [None, ["fixedarray", ["int8"], [6]], ["string", ["", "abcdefgh"]]]]]
+
+
 def c17_py_batching(prop="C17", tier="quick", seed=0, **kw):
     quick = tier != "thorough"
     nmax = 3 if quick else 4
@@ -256,9 +273,17 @@ def c17_py_batching(prop="C17", tier="quick", seed=0, **kw):
             jobs.append(_job("h_batch_write", "batch.write:%s/%s" % (tname(t), v), b, t_item=t, N=N, nmax=nm, variant=v))
         for m in modes:
             jobs.append(_job("h_batch_read", "batch.read:%s:%s" % (tname(t), m), b, t_item=t, N=N, mode=m, nmax=nm))
+    for t in (INDEP_ITEMS if quick else INDEP_ITEMS + INDEP_ITEMS_THOROUGH):
+        big = t[0] == "fixedarray" and t[2][0] > N
+        fixed_size = t[0] in ("fixedarray", "record") and not big     # every further variable-size item multiplies the shapes
+        j = _job("h_item_indep", "indep:%s" % json.dumps(t)[:50], b, t_item=t, N=N, nmax=3 if (fixed_size and not quick) else 2)
+        j["limits"]["budget_s"] = 3 * b     # 20-170 paths per job: the path count is the real bound, the clock only a safety net on a loaded machine
+        jobs.append(j)
     expected = ["batch.write-no-exception", "batch.bytes==reference(partition)", "batch.read-no-exception", "batch.items==written",
-                "batch.consumed==produced", "batch.items-are-fresh-objects", "int80-exact"]
-    bounds = {"buffer_size_N": [N], "items_max": "%d (%d for int16/vector/map/union items)" % (nmax, nmax - 1), "partitions": "every composition of n items (solver-chosen)", "refill_modes": modes, "job_budget_s": b}
+                "batch.consumed==produced", "batch.items-are-fresh-objects", "indep.read-no-exception", "indep.item==written-when-returned",
+                "indep.kept-items-unchanged-by-later-reads", "indep.items-share-no-memory-with-reader-buffer", "int80-exact"]
+    bounds = {"buffer_size_N": [N], "items_max": "%d (%d for int16/vector/map/union items)" % (nmax, nmax - 1), "partitions": "every composition of n items (solver-chosen)", "refill_modes": modes, "job_budget_s": b,
+              "item_independence": "2 (thorough: 3 for fixed-size item types) kept items of array / string / container types with symbolic content, reader offset symbolic, N symbolic trailing bytes read afterwards"}
     part = _run("c17_py_batching", prop, jobs, bounds, expected)
     _ref_lemmas(part)
     return part
@@ -289,6 +314,7 @@ CONV_TYPES = [[k] for k in ("int8", "uint8", "int16", "uint16", "int32", "uint32
     ["optional", ["int32"]], ["optional", ["string", ["", "x"]]], ["optional", ["bool"]],
     ["vector", ["int16"]], ["vector", ["optional", ["bool"]]], ["fixedvector", ["uint8"], 2],
     ["map", ["string", ["a", "b"]], ["int8"]], ["map", ["uint8"], ["bool"]], ["map", ["int16"], ["optional", ["uint8"]]],
+    ["map", ["date"], ["int8"]], ["map", ["datetime"], ["int8"]],      # (time keys: yardl_types.Time is unhashable, see h_json_kinds)
     ["enum", ["int32"], [0, 1, 5]], ["enum", ["int32"], [3]], ["flags", [1, 2, 4]], ["flags", [0, 1, 8]],
     ["union", [["int32"], ["bool"]], True], ["union", [None, ["int32"], ["string", ["", "s"]]], True], ["union", [["int32"], ["float64"]], False],
     ["union", [None, ["bool"], ["vector", ["uint8"]]], False], ["union", [["string", ["a"]], ["vector", ["bool"]], ["uint8"]], True],
@@ -305,7 +331,7 @@ def c02_py_converters(prop="C02", tier="quick", seed=0, **kw):
     for pat in (("VSV", "VSSV", "SSS") if quick else ("VSV", "VSSV", "SSS", "SSV", "VSVS", "VSSSV")):
         jobs.append(_job("h_ndjson_lines", "lines:" + pat, b, nmax=2 if quick or len(pat) > 4 else 3, pattern=pat))
     expected = ["conv.to_json-no-unexpected-exception", "conv.range-error-only-if-out-of-range", "conv.out-of-range-is-rejected",
-                "conv.from_json-no-exception", "conv.from_json(to_json(v))==v", "conv.json-kinds-extracted", "conv.kind-table-matches-runtime",
+                "conv.from_json-no-exception", "conv.from_json(to_json(v))==v", "conv.json-kinds-extracted", "conv.kind-table-matches-runtime", "conv.map-kind==object-iff-string-key",
                 "lines.no-exception", "lines.values==written", "lines.all-lines-consumed-once"]
     bounds = {"container_len_max": maxlen, "int_leaf_domain": "[-2^64, 2^65]", "enum_members": "<= 3", "floats/dates/flags": "concrete pools",
               "json text": "object level through the JSON data model (dumps/loads applied to concrete leaves only)"}
